@@ -35,7 +35,7 @@ ASSUMPTIONS = ['bases are normalised absolute http(s) URIs without fragment (the
 RULE = ('bases: normalised http(s) URIs with/without path, trailing slash, query; references: scheme-qualified, network-path, absolute-path, relative-path over '
 	'{".", "..", "", "g", "a.b", "...", segments with an encoded slash in either letter case next to dots, escapes with hex digits in mixed case}; network-path references also handed to join() as URI object / tuple / keywords with the host in upper case, query-only, fragment-only, empty; non-trivial = result differs from both base and reference text; distinct by result')
 
-BASES = [u'http://[2001:db8::1]/a/b?q', u'http://[v1.fe:DC]:81/x/y', u'http://a/b/c/d;p?q', u'http://a/b/c/d', u'http://a/b/c/', u'http://a', u'http://a/', u'https://h.example/x', u'http://a/b?x=1', u'https://u:p@h:8443/p/q/r', u'http://a/b/c/d/e/f/']
+BASES = [u'http://[2001:db8::1]/a/b?q', u'http://[v1.fe:DC]:81/x/y', u'http://a/b/c/d;p?q', u'http://a/b/c/d', u'http://a/b/c/', u'http://a', u'http://a/', u'https://h.example/x', u'http://a/b?x=1', u'https://u:p@h:8443/p/q/r', u'http://a/b/c/d/e/f/', u'http://svc:20:r:k@a/b/c', u'http://a/b?x=1%2B1&y=+z']
 RSEGS = [u'.', u'..', u'', u'g', u'a.b', u'...', u'h', u'g', u'h', u'x:', u'http:', u'a:b', u'@', u'a@b', u'x%2F..', u'%2F..', u'g%2Fh', u'y%2f..', u'..%2F', u'%2f', u'%cE%bB', u'%c3%Ab', u'%Ce%Bb.x']
 RFC_EXAMPLES = [u'g:h', u'g', u'./g', u'g/', u'/g', u'//g', u'?y', u'g?y', u'#s', u'g#s', u'g?y#s', u';x', u'g;x', u'g;x?y#s', u'', u'.', u'./', u'..', u'../', u'../g', u'../..', u'../../', u'../../g',
 	u'../../../g', u'../../../../g', u'/./g', u'/../g', u'g.', u'.g', u'g..', u'..g', u'./../g', u'./g/.', u'g/./h', u'g/../h', u'g;x=1/./y', u'g;x=1/../y', u'g?y/./x', u'g#s/./x', u'http:g', u'HTTP://X/./y']
@@ -44,12 +44,12 @@ RFC_EXAMPLES = [u'g:h', u'g', u'./g', u'g/', u'/g', u'//g', u'?y', u'g?y', u'#s'
 def gen_ref(rng):
 	kind = rng.randrange(8)
 	segs = u'/'.join(rng.choice(RSEGS) for _ in range(rng.randrange(1, 6)))
-	q = rng.choice([u'', u'', u'?y', u'?y=1&z', u'?t=12:30', u'?u=http://o/i', u'?a/b', u'?a@b', u'?a%20b=c%26d', u'?%41=%7e', u'?k=%C3%9C', u'?%E2%82%AC=%C3%9F', u'?x=%C2%80'])
+	q = rng.choice([u'', u'', u'?y', u'?y=1&z', u'?t=12:30', u'?u=http://o/i', u'?a/b', u'?a@b', u'?a%20b=c%26d', u'?%41=%7e', u'?k=%C3%9C', u'?%E2%82%AC=%C3%9F', u'?x=%C2%80', u'?x=1%2B1', u'?a%2Bb=c+d', u'?+=%2B'])
 	f = rng.choice([u'', u'', u'#s', u'#a:b', u'#x/y', u'#//z', u'#a%20b', u'#%41', u'#%C3%A9', u'#a%2Fb?c', u'#%25'])
 	if kind == 0:
 		return rng.choice([u'http', u'https', u'ftp', u'x']) + u'://' + rng.choice([u'b', u'B.c', u'u@b:81']) + u'/' + segs + q + f
 	if kind == 1:
-		return u'//' + rng.choice([u'b', u'B.c:8080', u'u:p@b', u'[::1]:8080', u'[2001:DB8::A]', u'127.0.0.1']) + rng.choice([u'', u'/' + segs]) + q + f
+		return u'//' + rng.choice([u'b', u'B.c:8080', u'u:p@b', u'u:p:w@b', u'u::@b:81', u'[::1]:8080', u'[2001:DB8::A]', u'127.0.0.1']) + rng.choice([u'', u'/' + segs]) + q + f
 	if kind == 2:
 		return u'/' + segs + q + f
 	if kind in (3, 4, 5):
@@ -208,6 +208,15 @@ def oracle(case):
 			and not _re2.search(u':(80|443)(/|$)', plain[6:]) and not rootless_dots(ref) and u'//' not in tp:
 		if text(got) != plain:
 			return {'what': 'the result is written %r, RFC 3986 5.2 gives %r (nothing in it needs escaping)' % (text(got), plain), 'base': base, 'ref': ref, 'finding': None}
+	# the authority with user information, read off the RFC result without the library's parser (a password may contain colons)
+	if ta and ts in (u'http', u'https') and _re2.match(u'^[a-z0-9:]*@[a-z0-9.]+(:[0-9]+)?$', ta):
+		want_auth = _re2.sub(u':(80|443)$', u'', ta) if ta.endswith(u':80' if ts == u'http' else u':443') else ta
+		if want_auth.split(u'@')[0].endswith(u':') and want_auth.count(u':') == 1:
+			want_auth = want_auth.replace(u':@', u'@')      # an empty password is not written
+		t = text(got)
+		got_auth = t.split(u'://', 1)[1].split(u'/', 1)[0].split(u'?')[0].split(u'#')[0] if u'://' in t else None
+		if got_auth is not None and got_auth != want_auth and not want_auth.startswith(u'@') and not want_auth.startswith(u':'):
+			return {'what': 'the authority of the result is written %r, RFC 3986 5.2.2 gives %r' % (got_auth, want_auth), 'base': base, 'ref': ref, 'finding': None}
 	if got.tuple != exp.tuple or text(got) != text(exp):
 		return {'what': 'join differs from RFC 3986 5.2.2 + normalisation', 'base': base, 'ref': ref, 'got': [text(got), list(got.tuple)], 'expected': [text(exp), list(exp.tuple)], 'finding': 'F59' if rootless_dots(ref) else None}
 	return None
